@@ -97,7 +97,8 @@ fn judge_output(input: &HCirc, text: &str, how: &str, batch: &str, out: &mut Run
         return;
     }
     for name in p.gate_names() {
-        if !["h", "rz", "cz", "cx", "swap"].contains(&name) {
+        // H, Z-phase (rz or one of its named special cases), CZ, CNOT, SWAP
+        if !["h", "rz", "z", "s", "sdg", "t", "tdg", "cz", "cx", "swap"].contains(&name) {
             vio("gate_outside_basic_set", format!("{how}: printed program uses '{name}'"));
             return;
         }
@@ -322,7 +323,9 @@ impl Property for C03 {
                 // the program the tool actually saw
                 let seen: Option<HCirc> = match inf {
                     InFault::None => Some(sc.circ.clone()),
-                    InFault::Empty => Some(HCirc::new(0)),
+                    // an empty file is not a program (the OPENQASM header is mandatory): nothing the
+                    // tool could print would be a correct artefact
+                    InFault::Empty => None,
                     InFault::TruncatedAtStatement(k) => {
                         let mut c = sc.circ.clone();
                         c.gates.truncate(*k);
@@ -357,7 +360,18 @@ impl Property for C03 {
                 match res {
                     CliResult::Ok(text) => {
                         out.ev_str("ok");
-                        if matches!(inf, InFault::Missing | InFault::IsDir) {
+                        // torn inside the header: still a (degenerate) valid program only if the cut
+                        // falls on a statement boundary after the OPENQASM line
+                        let cut_in_header = match inf {
+                            InFault::TruncatedMid(k) if *k < header.trim_end().len() => {
+                                let kept = &header[..*k];
+                                !(kept.trim_end().ends_with(';') && kept.contains("OPENQASM 2.0;"))
+                            }
+                            _ => false,
+                        };
+                        if matches!(inf, InFault::Empty) || cut_in_header {
+                            out.violations.push(Violation::new("success_despite_fault", format!("{how}: exit 0 although the input is not a complete program (empty, or torn inside its header)")).with("batch", sub).with("fault", inf.name()));
+                        } else if matches!(inf, InFault::Missing | InFault::IsDir) {
                             out.violations.push(Violation::new("success_despite_fault", format!("{how}: exit 0 with an unreadable input")).with("batch", sub).with("fault", inf.name()));
                         } else if must_fail_out {
                             out.violations.push(Violation::new("success_despite_fault", format!("{how}: exit 0 although the program could not be written")).with("batch", sub).with("fault", outf.name()));
